@@ -342,6 +342,7 @@ class Compare:
         self.rep, self.origin = rep, origin
         self.machinery = []
         self.f7_seen = {}
+        self.sampled = set()
 
     def row(self, kind, body, hint_idx, row, real):
         rep = self.rep
@@ -389,6 +390,10 @@ class Compare:
             rep.spec_drift(f"{kind} body={body} ops={ops}: decorated {rdo}/{rdl}, model of wrapper o inner {co}/{clog}")
         if len(ops) >= 3:
             rep.nontrivial((kind, json.dumps(body), " ".join(ops)))
+            if kind not in self.sampled and len(ops) >= 4 and plog:
+                self.sampled.add(kind)
+                rep.sample({"kind": kind, "body": body, "ops": ops, "model_plain": po, "model_wrapped": co,
+                            "real_plain": rpo, "real_decorated": rdo, "log": plog})
 
 
 def replay_rows(rep, pool, kind, rows, origin, cmp=None):
@@ -564,7 +569,7 @@ def _record_group(job):
     return out
 
 
-def trace_validate(rep, pool, d, kind, seed, nbodies, nseqs, seqlen):
+def trace_record(pool, d, kind, seed, nbodies, nseqs, seqlen):
     rnd = random.Random(f"c08-{kind}-{seed}")
     alphabet = kind_ops(kind, ALL_OPS)
     jobs = []
@@ -595,7 +600,19 @@ def trace_validate(rep, pool, d, kind, seed, nbodies, nseqs, seqlen):
                 w({"ev": "End", "log": log}, (b, is_dec, ops))
                 ntr += 1
     cfg = write_file(d, f"GenProtoTrace_{kind}.cfg", TRACE_CFG % kind)
-    res_t = tlc.run_tlc("trace/GenProtoTrace.tla", cfg, workers=1, env={"TRACE_FILE": path})
+    return dict(kind=kind, cfg=cfg, path=path, index=index, jobs=jobs, ntr=ntr)
+
+
+def trace_run(rec):
+    try:
+        return tlc.run_tlc("trace/GenProtoTrace.tla", rec["cfg"], workers=1, env={"TRACE_FILE": rec["path"]})
+    except Exception as ex:      # noqa
+        return ex
+
+
+def trace_judge(rep, rec, res_t):
+    kind, path, index, jobs, ntr = rec["kind"], rec["path"], rec["index"], rec["jobs"], rec["ntr"]
+    res_t = _check(res_t)
     rep.tlc(res_t, f"GenProtoTrace {kind}")
     rep.add("trace_events", len(index))
     f7s = [r["f7_at"] for r in res_t.printed if isinstance(r, dict) and "f7_at" in r]
@@ -669,7 +686,7 @@ def _design_runs(rep, d, tier):
         g = dict(deep, ops=kind_ops(kind, deep["ops"]))
         jobs.append((("deep", kind, "faithful"),
                      make_cfg(d, f"deep_{kind}", kind, "faithful", g, keep=False, emit=False,
-                              invs=["TypeOK", "LockStepModF7", "NoOrphan"]), {"coverage": True}))
+                              invs=["TypeOK", "LockStepModF7", "NoOrphan"]), {}))
     results = _tlc_many(jobs, par=4)
     model_broken = []
     for (what, kind, wrap), cfg, _ in jobs:
@@ -696,16 +713,17 @@ def _design_runs(rep, d, tier):
         else:
             if res.violated:
                 model_broken.append((kind, res.violated, res.error_trace[-1][1] if res.error_trace else {}))
-            if res.coverage.get("Do", (0, 0))[1] == 0:
-                rep.machinery("vacuous TLC run: Do never taken")
+            if not res.violated and res.distinct < 1000:
+                rep.machinery(f"vacuous TLC run ({kind} deep): {res.distinct} states")
     return model_broken
 
 
+G_STRAIGHT4 = dict(G_STRAIGHT, pre=G_STRAIGHT["pre"] + ["XA", "XG"], maxops=4)
+G_TRY2 = dict(G_TRYQ, hblk=["Y2", "LB", "RN", "RR", "XE", "XS"], hblkmax=2, post=["Y1", "XE"],
+              ops=["next", "send7", "tE1", "tGE", "close"])
 TABLES = {
     "quick": [("straight", G_STRAIGHT), ("try", G_TRYQ)],
-    "thorough": [("straight", dict(G_STRAIGHT, maxops=4)), ("try", G_TRY),
-                 ("try2", dict(G_TRYQ, hblk=["Y2", "LB", "RN", "RR", "XE", "XS"], hblkmax=2, post=["Y1", "XE"],
-                               ops=["next", "send7", "tE1", "tGE", "close"]))],
+    "thorough": [("straight", G_STRAIGHT4), ("try", G_TRY), ("try2", G_TRY2)],
 }
 
 
@@ -808,9 +826,13 @@ def run(rep, tier, seed):
         try:
             broken = _design_runs(rep, d, tier)
             broken += _table_runs(rep, d, tier, pool)
-            nb, ns, sl = (150, 4, 10) if tier == "quick" else (2500, 6, 14)
-            for kind in KINDS:
-                trace_validate(rep, pool, d, kind, seed, nb, ns, sl)
+            nb, ns, sl = (150, 4, 10) if tier == "quick" else (1000, 5, 14)
+            recs = [trace_record(pool, d, kind, seed, nb, ns, sl) for kind in KINDS]
+            from concurrent.futures import ThreadPoolExecutor
+            with ThreadPoolExecutor(max_workers=3) as tp:
+                outs = list(tp.map(trace_run, recs))
+            for rec, out in zip(recs, outs):
+                trace_judge(rep, rec, out)
             _hint_mismatch(rep)
         finally:
             pool.terminate()
@@ -824,6 +846,9 @@ def run(rep, tier, seed):
                           "but the real code shows no such difference (the transcription is wrong): " + msg)
         rep.note("design-level violation beyond F7 (confirmed on the real code, see violations): " + msg)
     rep.cov["exhaustive"] = True
+    rep.cov["rule"] = ("cases = every (body, operation sequence) row printed by TLC for GenProto.tla plus seeded random "
+                       "nested bodies; a case is counted non-trivial (distinct by kind, body, sequence) when it has at "
+                       "least three operations")
     rep.cov["scope"] = ("all bodies of the template grammar x all operation sequences up to the bound, per kind; "
                         "see tlc_runs")
 
@@ -851,6 +876,8 @@ def replay(rep, path):
     if bad or pl != dl:
         rep.violation(json.load(open(path))["key"], json.load(open(path))["what"], case)
     rep.level = "exploration"
+    rep.cov["rule"] = "replay of one stored (body, operation sequence) case on the plain and the decorated object"
     rep.count(len(ops))
-    rep.nontrivial("a")
-    rep.nontrivial("b")
+    rep.nontrivial(("plain", " ".join(ops)))
+    rep.nontrivial(("decorated", " ".join(ops)))
+    rep.sample({"kind": kind, "ops": ops, "undecorated": po, "decorated": do})
